@@ -384,14 +384,19 @@ class BlackbirdProgram:
             inv_type_map = {np.dtype(v).kind: k for k, v in NUMPY_TYPES.items()}
 
             for k, v in self._var.items():
+                if isinstance(v, sym.Expr):
+                    # a free parameter; it appears by value in the operations
+                    continue
+
                 var_type = inv_type_map[np.array(v).dtype.kind]
                 array_string = ""
-                if isinstance(v, Iterable):
+                if isinstance(v, np.ndarray):
                     for row in v:
                         array_string += "\n    " + "".join("{}, ".format(i) for i in row)[:-2]
                     script.append("{} array {} ={}".format(var_type, k, array_string))
                 else:
-                    script.append("{} array {} =\n{}".format(var_type, k, v))
+                    # scalar variable
+                    script.append("{} {} = {}".format(var_type, k, _format_value(v)))
 
 
             # line break
